@@ -196,7 +196,7 @@ TWIN_SOURCES = {
     "c17_shop": """
 from __future__ import annotations
 from dataclasses import dataclass
-from typing import List, Optional, TYPE_CHECKING
+from typing import List, Optional, Tuple, TYPE_CHECKING
 if TYPE_CHECKING:
     from c17_warehouse import Shelf
     from c17_geometry import Position, Orientation
@@ -211,6 +211,19 @@ class Item:
 class Pose:
     position: Position = None
     orientation: Optional[Orientation] = None
+    pair: Tuple[Position, Orientation] = None
+
+
+@dataclass
+class Kit:
+    '''names a class of its own body and a class it imports only under TYPE_CHECKING'''
+
+    @dataclass
+    class Part:
+        n: int = 0
+
+    part: Part = None
+    shelf: Optional[Shelf] = None
 
 
 @dataclass
@@ -232,9 +245,29 @@ class Position:
 class Orientation:
     w: float = 1.0
 """,
+    "c17_depot": """
+from __future__ import annotations
+from dataclasses import dataclass
+from typing import Optional, TYPE_CHECKING
+from c17_shop import Cart
+if TYPE_CHECKING:
+    from c17_warehouse import Shelf
+
+
+@dataclass
+class DepotCart(Cart):
+    '''inherits fields that name Item - the Item of the module of Cart, this module does not define one'''
+    second_shelf: Optional[Shelf] = None
+""",
     "c17_warehouse": """
 from __future__ import annotations
 from dataclasses import dataclass
+
+
+@dataclass
+class Part:
+    '''unrelated to the class of that name inside c17_shop.Kit'''
+    code: int = 0
 
 
 @dataclass
@@ -262,11 +295,11 @@ def run_same_name_in_two_modules(case, ctx):
             exec(src, m.__dict__)
         mods[name] = sys.modules[name]
     shop, wh = mods["c17_shop"], mods["c17_warehouse"]
-    geo = mods["c17_geometry"]
+    geo, depot = mods["c17_geometry"], mods["c17_depot"]
     # Pose names two classes that are neither defined in its module nor part of the diagram
-    classes = [shop.Item, wh.Item, wh.Shelf, shop.Cart, shop.Pose]
+    classes = [shop.Item, wh.Item, wh.Shelf, shop.Cart, shop.Pose, depot.DepotCart, wh.Part, shop.Kit]
     if case.get("order"):
-        classes = [wh.Item, shop.Item, shop.Pose, wh.Shelf, shop.Cart]
+        classes = [shop.Kit, wh.Part, shop.Item, wh.Item, depot.DepotCart, shop.Pose, wh.Shelf, shop.Cart]
     got = {}
     for with_pose in (False, True):
         try:
@@ -279,7 +312,10 @@ def run_same_name_in_two_modules(case, ctx):
     C["same_name_in_two_modules_diagrams"] += 1
     want = {("c17_shop", "Cart", "item"): shop.Item, ("c17_shop", "Cart", "items"): shop.Item, ("c17_shop", "Cart", "shelf"): wh.Shelf,
             ("c17_warehouse", "Shelf", "item"): wh.Item, ("c17_shop", "Pose", "position"): geo.Position,
-            ("c17_shop", "Pose", "orientation"): geo.Orientation}
+            ("c17_shop", "Pose", "orientation"): geo.Orientation, ("c17_shop", "Pose", "pair"): geo.Position,
+            ("c17_depot", "DepotCart", "item"): shop.Item, ("c17_depot", "DepotCart", "items"): shop.Item,
+            ("c17_depot", "DepotCart", "second_shelf"): wh.Shelf, ("c17_shop", "Kit", "part"): shop.Kit.Part,
+            ("c17_shop", "Kit", "shelf"): wh.Shelf}
     wrong = {k: (got.get(k), v) for k, v in want.items() if got.get(k) is not v}
     if wrong:
         return {"status": "fail", "kind": "diagram", "key": None,
